@@ -110,7 +110,7 @@ func asBool(d any) (bool, error) {
 		var i bool
 		intType := reflect.TypeOf(i)
 		dValue := reflect.ValueOf(d)
-		if !dValue.IsValid() || !dValue.CanConvert(intType) {
+		if !dValue.IsValid() || !kindsAgree(dValue.Kind(), intType.Kind()) || !dValue.CanConvert(intType) {
 			return false, &ConstraintError{
 				Message: fmt.Sprintf("%T is not a valid data type for a bool schema.", d),
 			}
